@@ -3,6 +3,7 @@ package checks
 import (
 	"errors"
 	"fmt"
+	"io"
 	"regexp"
 	"strconv"
 
@@ -24,7 +25,7 @@ func init() {
 		Level: "fault_enumeration",
 		Rule: "the C01 packet enumeration plus malformed-but-constructible packets (QoS 3, no filters, no reason codes) and the zero value &T{} of every type, written to a scripted io.Writer. " +
 			"Success path (every packet): exactly one Write call whose bytes are exactly one frame (first byte of the type, minimal remaining-length field equal to the bytes that follow; for in-domain packets the specification decoder consumes them exactly), returned n == bytes accepted == frame length == the N printed by String() as 'N bytes'. " +
-			"Fault path: for the bases, every single-field deviation and the size-ladder packets, the writer fails before writing (0,E) and after accepting k bytes (k,E) for EVERY k below the frame length (frames <= 4 KiB; for larger frames k in {0,1,2,every field boundary of the field map,len-1}): WriteTo must return exactly (k, E) having made one Write call. Undefined.WriteTo must fail without a Write call. " +
+			"Fault path: for the bases, every single-field deviation and the size-ladder packets, the writer fails before writing (0,E) and after accepting k bytes (k,E) for EVERY k below the frame length (frames <= 4 KiB; for larger frames k in {0,1,2,every field boundary of the field map,len-1}): WriteTo must return exactly (k, E) having made one Write call. Undefined.WriteTo must fail without a Write call. Rewrite path: every packet type written once, then changed through every setter (every pair from the full packet), then written again: the second write is judged by the success-path oracle. " +
 			"distinct_nontrivial = distinct (packet, k) fault cases plus distinct packets on the success path.",
 		Assumptions: []string{
 			"E is a fresh error value per execution; identity is checked with errors.Is",
@@ -222,6 +223,36 @@ func runC10(x *core.Ctx) {
 		doPacket(c.P, c.Stratum, c.describe(), faults, func() core.Case { return cc.toCase("c10.packet") })
 		x.Sample(c.Stratum, 1, func() any { return c.describe() })
 	})
+	// rewrite after modification: a packet that has been written once is
+	// changed through every setter (and every pair from the full packet) and
+	// written again — the second frame must be exactly the frame of the new
+	// state (a buffer kept from the first write must not show)
+	for _, s := range subjects() {
+		ops := alphabet(s.Name)
+		for _, init := range []string{"full", "new"} {
+			for i := range ops {
+				if !x.Mine() {
+					continue
+				}
+				paths := [][]int{{i}}
+				if init == "full" {
+					for j := range ops {
+						paths = append(paths, []int{i, j})
+					}
+				}
+				for _, path := range paths {
+					path := path
+					x.Eval("rewrite-after-set." + s.Name)
+					x.Distinct(core.HashInts("rw"+s.Name+init, path))
+					if f := c10Rewrite(s, ops, init, path); f != nil {
+						x.Report(f, func() core.Case {
+							return core.Case{Harness: "c10.rewrite", Choices: path, Params: map[string]any{"type": s.Name, "init": init}}
+						}, func() *core.Finding { return c10Rewrite(s, ops, init, path) })
+					}
+				}
+			}
+		}
+	}
 	if x.Shard == 0 {
 		for i, p := range malformedConstructible() {
 			i := i
@@ -264,8 +295,38 @@ func runC10(x *core.Ctx) {
 	}
 }
 
+// c10Rewrite: write, apply the setters of path, write again and judge the
+// second write.
+func c10Rewrite(s subject, ops []sop, init string, path []int) *core.Finding {
+	obj := makeInit(s, ops, init)
+	q, ok := obj.(mq.Packet)
+	if !ok || q == nil {
+		return nil
+	}
+	t := bind.TypeOf(q)
+	if res := guarded(0, func() { q.WriteTo(io.Discard) }); res.Panic != "" {
+		return nil
+	}
+	for _, oi := range path {
+		oi := oi
+		if res := guarded(0, func() { ops[oi].Call(q) }); res.Panic != "" {
+			return nil
+		}
+	}
+	obs, _ := bind.Observe(q)
+	decodable := gen.WellFormedPacket(obs) && inC01Domain(obs)
+	return c10Success(q, t, decodable, fmt.Sprintf("%s (%s) written once, then [%s], written again", s.Name, init, pathNames(ops, path)))
+}
+
 func replayC10(c core.Case) *core.Finding {
 	switch c.Harness {
+	case "c10.rewrite":
+		for _, s := range subjects() {
+			if s.Name == paramStr(c.Params, "type") {
+				return c10Rewrite(s, alphabet(s.Name), paramStr(c.Params, "init"), c.Choices)
+			}
+		}
+		return nil
 	case "c10.packet":
 		pc := pcaseFromCase(c)
 		q, err, res := buildGuarded(pc.P)
